@@ -35,6 +35,7 @@ func main() {
 		keep     = flag.Bool("keep", false, "keep scratch directory")
 		replayF  = flag.String("replay", "", "replay file to re-run")
 		selftest = flag.Bool("canary", true, "run vacuity canaries")
+		rf       = flag.Bool("rf", false, "development: replay failed obligations")
 	)
 	flag.Parse()
 	t0 := time.Now()
@@ -61,6 +62,14 @@ func main() {
 		}
 		res := r.run(&PropSpec{ID: "dev", Funcs: keys})
 		r.printSummary(res)
+		if *rf {
+			for _, o := range res.obls {
+				if !o.OK() && !o.Cover {
+					rec, path := r.replayObligation("dev", o)
+					fmt.Printf("REPLAY %s: %s (%s)\n  inputs: %v\n  model outputs: %v\n  file %s\n", o.Name, rec.Verdict, truncate(rec.Reason, 600), rec.Inputs, rec.Expected, path)
+				}
+			}
+		}
 		if res.failed > 0 {
 			os.Exit(1)
 		}
